@@ -40,6 +40,15 @@ MANIFEST = {
 TYPES = [(32, 16), (16, 8), (24, 5), (64, 32), (8, 4)]
 
 
+def quiet_close(sim):
+    """close() cancels tasks of never-awaited intermediate results; keep their tracebacks out of the log"""
+    try:
+        sim.loop.set_exception_handler(lambda loop, context: None)
+    except Exception:  # noqa
+        pass
+    sim.close()
+
+
 def flatten(z):
     if isinstance(z, (list, tuple)):
         out = []
@@ -75,7 +84,8 @@ def synth_args(site, secfxp, f, variant):
     eps = 3 * 2.0 ** -f
     n = 2 + variant
     args, desc = [], []
-    for pname in site['required']:
+    for pj, pname in enumerate(site['required']):
+        eps = (3 + 4 * pj) * 2.0 ** -f
         if pname == 'self':
             continue
         if pname in idx:
@@ -102,8 +112,9 @@ def synth_args(site, secfxp, f, variant):
         elif pname in ('sectype', 'sftype', 'stype'):
             args.append(secfxp)
             desc.append((pname, 'secfxp'))
-        else:
-            return None, 'no synthesis rule for parameter %r' % pname
+        else:   # unknown role: an integral scalar 1 (e.g. the condition of _if_else_list)
+            args.append(secfxp(1))
+            desc.append((pname, 1))
     return args, desc
 
 
@@ -153,9 +164,9 @@ def run_search(ctx, Sim, failing, sites):
                 sim = Sim(m=1, t=0, seed=ctx.seed)
                 try:
                     sim.start()
-                    r = sim.run(prog)
+                    r = sim.run(prog, idle_limit=3000, spins=20)
                 finally:
-                    sim.close()
+                    quiet_close(sim)
                 ctx.case({'search': key, 'type': [l, f], 'variant': variant}, nontrivial=True, kind='search')
                 if 'nosynth' in rec or 'exc' in rec or r[0] is not None:
                     problems.append({k: rec.get(k) for k in ('nosynth', 'exc')} | {'run': str(r[0])[:200]})
@@ -190,11 +201,11 @@ def run_search(ctx, Sim, failing, sites):
 
 def make_prog(l, f, seed, nops, records, use_input):
     import random as _random
-    rng = _random.Random(seed)
     U = 2 ** f
     LIM = 2 ** (l - 2)
 
     async def prog(mpc, mods, pid):
+        rng = _random.Random(seed)      # one generator per party, same seed: parties stay in lockstep
         secfxp = mpc.SecFxp(l, f)
         secint = mpc.SecInt(l)
         seclist = mods['mpyc.seclists'].seclist
@@ -260,6 +271,8 @@ def make_prog(l, f, seed, nops, records, use_input):
 
         for step in range(nops):
             op = rng.choice(OPS)
+            if os.environ.get('C03_DEBUG'):
+                print('op', step, op, flush=True)
             try:
                 new = []
                 if op in ('neg', 'pos', 'abs', 'sgn', 'lsb_flag', 'is_zero'):
@@ -311,6 +324,8 @@ def make_prog(l, f, seed, nops, records, use_input):
                     new = await op_out(op, [[a[1], a[2]]], a[0] ** n, extra=n)
                 elif op in ('sum', 'prod', 'min', 'max', 'sorted'):
                     xs = pick_list(rng.randint(2, 4), mixed=rng.random() < 0.6)
+                    if os.environ.get('C03_DEBUG'):
+                        print('  list', [(c[1], c[2], id(c[0])) for c in xs], flush=True)
                     if op == 'prod' and not all(small(c, 3) for c in xs):
                         continue
                     z = {'sum': mpc.sum, 'prod': mpc.prod, 'min': mpc.min, 'max': mpc.max, 'sorted': mpc.sorted}[op]([c[0] for c in xs])
@@ -608,6 +623,52 @@ def model_expr(rec, p):
     return None
 
 
+def input_flag_test(ctx, Sim):
+    """Every party inputs its OWN value; the flags each party attaches to the m received sharings must
+    be sound (flag => whole) at every party -- they may not depend on the local party's own value."""
+    for (m, t, no_prss, vals) in [(3, 1, False, [0.5, 1.0, 1.5]), (4, 1, False, [0.25, 0.5, 0.75, 1.0]),
+                                  (4, 1, True, [0.25, 0.5, 0.75, 1.0]), (3, 1, False, [2.0, 1.0, 3.0])]:
+        l, f = 32, 16
+        U = 2 ** f
+
+        async def prog(mpc, mods, pid, vals=vals):
+            secfxp = mpc.SecFxp(l, f)
+            x = mpc.input(secfxp(vals[pid]))
+            flags = [bool(a.integral) for a in x]
+            opened = [int(await mpc.output(a, raw=True)) for a in x]
+            return [flags, opened]
+        sim = Sim(m=m, t=t, no_prss=no_prss, seed=ctx.seed + 5)
+        try:
+            sim.start()
+            res = sim.run(prog, idle_limit=400)
+            ctx.case({'input_flags': vals, 'm': m, 'no_prss': no_prss}, nontrivial=True, kind='input-own-value')
+            if any(not isinstance(r, list) for r in res):
+                ctx.broken.append({'kind': 'run', 'what': 'input flag program did not complete', 'res': str(res)[:300]})
+                continue
+            flagsets = [r[0] for r in res]
+            wrong = [(p, i) for p, r in enumerate(res) for i, (fl, v) in enumerate(zip(r[0], r[1])) if fl and v % U]
+            detail = {'m': m, 't': t, 'no_prss': no_prss, 'own_values': vals, 'flags_per_party': flagsets,
+                      'opened_scaled': res[0][1], 'wrong_(party,input)': wrong}
+            if wrong:
+                # what happens downstream: the product of two inputs (parties disagree on truncation)
+                async def prog2(mpc, mods, pid, vals=vals):
+                    secfxp = mpc.SecFxp(l, f)
+                    x = mpc.input(secfxp(vals[pid]))
+                    return int(await mpc.output(x[0] * x[1], raw=True))
+                sim2 = Sim(m=m, t=t, no_prss=no_prss, seed=ctx.seed + 6)
+                try:
+                    sim2.start()
+                    r2 = sim2.run(prog2, idle_limit=300)
+                finally:
+                    quiet_close(sim2)
+                detail['product_x0_x1_per_party'] = [str(r)[:60] for r in r2]
+                detail['product_exact_scaled'] = str(Fr(res[0][1][0] * res[0][1][1], U))
+                differ = any(fs != flagsets[0] for fs in flagsets)
+                ctx.violation('flag-from-local-value site=_distribute' if differ else 'flag-wrong op=input-own-value', detail)
+        finally:
+            quiet_close(sim)
+
+
 def field_modulus(Sim, seed):
     out = {}
 
@@ -619,7 +680,7 @@ def field_modulus(Sim, seed):
         sim.start()
         sim.run(prog)
     finally:
-        sim.close()
+        quiet_close(sim)
     return out
 
 
@@ -642,22 +703,27 @@ def run(ctx):
         ctx.discharged += n_ob
     failing, others = [], []
     if ok:
-        res = ctx.coq_eval(['MPyC.Fxp', 'MPyCGen.FlagRules'], ['failing_sites rules', 'other_sites rules'],
+        res = ctx.coq_eval(['MPyC.Fxp', 'MPyCGen.FlagRules'],
+                           ['failing_sites rules', 'other_sites rules',
+                            'forallb covers_all_elements (filter is_setting_site rules)'],
                            preamble='Open Scope string_scope.')
         if any(isinstance(r, tuple) and r and r[0] == 'ERROR' for r in res):
             ctx.broken.append({'kind': 'obligation', 'what': 'cannot evaluate failing_sites', 'detail': str(res)[:500]})
+            cover_ok = False
         else:
-            failing, others = list(res[0]), list(res[1])
-        with BuildLock():
-            rc, out = sh(['coqc', *COQFLAGS, 'gen/FlagCover.v'], cwd=COQ, timeout=600)
-        cover_ok = rc == 0
+            failing, others, cover_ok = list(res[0]), list(res[1]), res[2] is True
+        if cover_ok:   # state it as a compiled theorem as well
+            with BuildLock():
+                rc, out = sh(['coqc', *COQFLAGS, 'gen/FlagCover.v'], cwd=COQ, timeout=600)
+            if rc:
+                cover_ok = False
+                ctx.broken.append({'kind': 'obligation', 'what': 'gen/FlagCover.v does not compile', 'detail': out[-500:]})
         if cover_ok:
             ctx.discharged += 1
             ctx.theorems.append(('rule_consults_all', 'compiled (gen/FlagCover.v)'))
         ctx.log('rule_consults_all: %s; failing sites: %s' % ('holds' if cover_ok else 'FAILS', failing))
         if cover_ok != (not failing):
-            ctx.broken.append({'kind': 'obligation', 'what': 'FlagCover.v result and failing_sites disagree',
-                               'detail': out[-500:]})
+            ctx.broken.append({'kind': 'obligation', 'what': 'coverage obligation and failing_sites disagree'})
     ctx.extra['failing_rule_consults_all'] = failing
     ctx.extra['guard_sites_first_element'] = [s['key'] for s in sites if s['kind'] == 'guard'
                                               and expr_names(s['expr'], 'Idx') and not expr_names(s['expr'], 'AllOf')]
@@ -676,6 +742,7 @@ def run(ctx):
     # ---- 2. search at failing sites
     found = run_search(ctx, Sim, failing, sites)
     failing_fns = {next(s for s in sites if s['key'] == k)['func'].split('.')[-1] for k in failing}
+    input_flag_test(ctx, Sim)
     # ---- 3. random programs
     ctx.rule = ('case = one operation instance inside a random fixed-point program (type, operation, opened operand values '
                 'and flags); non-trivial when an operand list has mixed integrality or a truncation/skip decision is taken; '
@@ -699,9 +766,10 @@ def run(ctx):
         sim = Sim(m=m, t=t, seed=ctx.seed * 131 + r)
         try:
             sim.start()
-            res = sim.run(make_prog(l, f, ctx.seed * 7907 + r * 31 + l, ctx.n(70, 200) if m == 1 else ctx.n(40, 120), recs, use_input))
+            res = sim.run(make_prog(l, f, ctx.seed * 7907 + r * 31 + l, ctx.n(70, 200) if m == 1 else ctx.n(40, 120), recs, use_input),
+                          idle_limit=4000, spins=(400 if m == 1 else 1))
         finally:
-            sim.close()
+            quiet_close(sim)
         if any(not isinstance(x, int) for x in res):
             ctx.broken.append({'kind': 'run', 'what': 'random program did not complete', 'config': [m, t, l, f], 'res': str(res)[:300]})
         for rec in recs:
